@@ -1310,7 +1310,10 @@ class Interp:
                 recv.sort(key=keyof, reverse=rev)
                 return None
             if isinstance(recv, (set, list)) and f.attr in ("add", "pop", "append", "extend", "index", "count", "copy", "update", "discard", "remove", "insert", "clear", "reverse"):
-                return getattr(recv, f.attr)(*[self.eval(a) for a in e.args])
+                xs_ = [self.eval(a) for a in e.args]
+                if isinstance(recv, list) and f.attr in ("insert", "pop") and xs_ and isinstance(xs_[0], Poly) and xs_[0].is_const() and xs_[0].const_value().denominator == 1:
+                    xs_[0] = int(xs_[0].const_value())  # positions are python integers
+                return getattr(recv, f.attr)(*xs_)
             if isinstance(recv, (set, frozenset)) and f.attr in ("union", "intersection", "difference", "symmetric_difference", "issubset", "issuperset", "isdisjoint"):
                 others = []
                 for a in e.args:
